@@ -19,7 +19,7 @@ from ..monitors import EvalTracer
 
 glom = env.bind()
 import glom.core as gcore  # noqa: E402
-from glom import (T, S, A, M, Val, Spec, Pipe, Coalesce, And, Or, Switch, Match, Vars, Ref, Auto, Regex, GlomError,  # noqa: E402
+from glom import (T, S, A, M, Val, Spec, Pipe, Coalesce, And, Or, Switch, Match, Vars, Ref, Auto, Regex, GlomError, Required,  # noqa: E402
                   glom as G)
 
 META = {
@@ -110,9 +110,17 @@ class TreeGen:
 
     def binder(self):
         rng = self.rng
-        k = rng.choice(['S', 'S', 'S-from', 'A', 'A.globals', 'vars-new', 'vars-set'])
+        k = rng.choice(['S', 'S', 'S-from', 'S-multi', 'A', 'A.globals', 'vars-new', 'vars-set'])
         name = rng.choice(NAMES)
         self.kinds.add('bind:' + k)
+        if k == 'S-multi':
+            # one S() step with two keywords, the second reading a name (mostly the one the first keyword binds): all values
+            # are evaluated in the scope as it was BEFORE the step, then bound together
+            other = rng.choice([n for n in NAMES if n != name])
+            src = name if rng.random() < 0.7 else rng.choice(NAMES)
+            u = self.uval()
+            spec = S(**{name: Val(u), other: Coalesce(getattr(S, src), default=ABSENT)})
+            return Node('bind_S_multi', spec, name=name, value=u, other=other, src=src)
         if k == 'S':
             u = self.uval()
             return Node('bind_S', S(**{name: Val(u)}), name=name, value=u)
@@ -187,7 +195,7 @@ class TreeGen:
                 cases.append((key, val))
             return Node('switch', Switch([(k.spec, v.spec) for k, v in cases], default='SWITCH-DEFAULT'), cases=cases)
         if c == 'matchdict':
-            form = rng.choice(['direct', 'direct', 'and', 'regex'])
+            form = rng.choice(['direct', 'direct', 'and', 'regex', 'required'])
             if form == 'regex':
                 name = rng.choice(NAMES)
                 key = Node('bind_regex', Regex('(?P<%s>o)nly' % name), name=name)
@@ -199,7 +207,9 @@ class TreeGen:
                     key = Node('and', And(str, key.spec), kids=[Node('pass', str), key])
             val = self.gen(depth - 1)
             # (the value spec is wrapped in Auto: plain containers would be patterns in match mode)
-            inner = Node('matchdict', Match({key.spec: Auto(val.spec)}), key=key, val=val)
+            # (Required(key) is the key itself as far as bindings go: it only adds "must have matched at least once")
+            key_spec = Required(key.spec) if form == 'required' else key.spec
+            inner = Node('matchdict', Match({key_spec: Auto(val.spec)}), key=key, val=val)
             u = self.uval()
             setter = Node('val', Val({'only': u}), value={'only': u})
             return Node('chain', Pipe(setter.spec, inner.spec), kids=[setter, inner])
@@ -254,6 +264,14 @@ class Model:
                 F.vars[node.name] = F.lookup(node.src)
             except KeyError:
                 F.vars[node.name] = ABSENT
+            return target
+        if k == 'bind_S_multi':
+            try:
+                seen = F.lookup(node.src)
+            except KeyError:
+                seen = ABSENT
+            F.vars[node.name] = node.value
+            F.vars[node.other] = seen
             return target
         if k == 'bind_A':
             F.vars[node.name] = target
@@ -536,7 +554,8 @@ def spec_glom_entry(col):
 
 def matchdict_two_keys(col, rng):
     """a Match-dict key passes its bindings to its own value spec only: constant key + binding key, both target orders"""
-    for binder_name, binder in (('A.k', A.k), ('S(k=)', S(k=Val('BOUND')))):
+    for binder_name, binder in (('A.k', A.k), ('S(k=)', S(k=Val('BOUND'))), ('Required(A.k)', Required(A.k)),
+                                ('Required(S(k=))', Required(S(k=Val('BOUND'))))):
         for order in (('bound', 'const'), ('const', 'bound')):
             for outer in (None, 'OUTER'):
                 rd_const, rd_bound = Coalesce(S.k, default=ABSENT), Coalesce(S.k, default=ABSENT)
@@ -546,7 +565,7 @@ def matchdict_two_keys(col, rng):
                     target['const' if o == 'const' else 'other'] = 1
                 spec = (S(k=Val(outer)), pattern) if outer else pattern
                 got = call(G, target, spec)
-                bound_val = 'other' if binder_name == 'A.k' else 'BOUND'
+                bound_val = 'other' if 'A.k' in binder_name else 'BOUND'
                 want = {'const': outer or ABSENT, 'other': bound_val}
                 col.case(('matchdict-two-keys', binder_name, order, outer), True)
                 col.count('reader_observations', 2)
